@@ -164,16 +164,31 @@ impl C14 {
                 nbest += 1;
             }
         }
+        // the three constructors (with_float, with_prob, new from LogProbs) must build the same model
+        let ctor = (npaths + t + s) % 3;
         let r = guard(|| {
+            use bio::stats::{LogProb, Prob};
+            let (tp, ep, ip) = (tm.map(|x| Prob(*x)), em.map(|x| Prob(*x)), im.map(|x| Prob(*x)));
+            let endp = endv.as_ref().map(|e| e.map(|x| Prob(*x)));
             if h.kind == 0 {
-                let model = discrete_emission::Model::with_float(&tm, &em, &im).unwrap();
+                let model = match ctor {
+                    0 => discrete_emission::Model::with_float(&tm, &em, &im),
+                    1 => discrete_emission::Model::with_prob(&tp, &ep, &ip),
+                    _ => discrete_emission::Model::new(tp.map(|x| LogProb::from(*x)), ep.map(|x| LogProb::from(*x)), ip.map(|x| LogProb::from(*x))),
+                }
+                .unwrap();
                 run_model(&model, &h.obs)
             } else {
-                let model = discrete_emission_opt_end::Model::with_float(&tm, &em, &im, endv.as_ref()).unwrap();
+                let model = match ctor {
+                    0 => discrete_emission_opt_end::Model::with_float(&tm, &em, &im, endv.as_ref()),
+                    _ => discrete_emission_opt_end::Model::with_prob(&tp, &ep, &ip, endp.as_ref()),
+                }
+                .unwrap();
                 run_model(&model, &h.obs)
             }
         });
         ctx.eval(3);
+        ctx.count(["constructor:with_float", "constructor:with_prob", "constructor:new"][if h.kind == 1 && ctor == 2 { 1 } else { ctor }], 1);
         let desc = |w: String| Obj::new().raw("hmm", &h.json()).f("sum_over_all_paths", total).f("best_path_probability", best).s("what", &w).done();
         let (vp, vprob, f, b) = match r {
             Ok(x) => x,
